@@ -215,6 +215,12 @@ def extra_arguments(S):
         out.append(('nest:modal:2', ((op('Necessity', op('Possibility', A)), op('Possibility', neg(B))),
                                      op('Possibility', op('Necessity', A)))))
     if S.modal and S.quantified:
+        a_, b_ = gen.CONSTS[:2]
+        idab = syn.papp(syn.IDENTITY, a_, b_)
+        # identity directly under unary operators, beside the plain and the negated identity
+        out.append(('id-under-unary:1', ((op('Necessity', idab),), idab)))
+        out.append(('id-under-unary:2', ((op('Possibility', idab), neg(idab)), op('Necessity', neg(idab)))))
+        out.append(('id-under-unary:3', ((op('Assertion', idab), neg(idab)), op('Possibility', idab))))
         out.append(('nest:fomodal', ((op('Necessity', q('Existential', x, op('Possibility', syn.papp(F1, x)))),), B)))
     return out
 
@@ -489,6 +495,28 @@ def text_oracle(tab, writer, text, out=None, lw=None):
 
     def nmarks(s):
         return sum(s.count(m) for m in cmarks)
+
+    # distinct sentences on the tableau must have distinct written forms (otherwise the rendering cannot be the
+    # written form of both)
+    forms = {}
+    for b in tab:
+        for n in b:
+            sn = n.get('sentence')
+            if sn is None:
+                continue
+            try:
+                w = lw(sn)
+            except Exception:
+                continue
+            other = forms.setdefault(w, sn)
+            if other != sn:
+                problems.append(dict(clause='distinct-sentences-same-written-form', node_kind='sentence',
+                                     node_type=type(n).__name__,
+                                     detail=dict(written=w, first=repr(other), second=repr(sn))))
+                forms = None
+                break
+        if forms is None:
+            break
 
     order = tree_preorder(tab.tree)
     branches = list(tab)
